@@ -137,7 +137,7 @@ def at_loop_head(self, st, fr):
                 return
 
 
-def probe(self, st, fr, l, path, kind, k, fld, with_succ=True):
+def probe(self, st, fr, l, path, kind, k, fld, with_succ=True, companions=()):
     """One iteration with the cursor leaf = k on a scratch copy.  Returns (scratch, events, successor individual or None) or None."""
     from .interp import LoopHeadReached
     sc = st.copy()
@@ -152,6 +152,8 @@ def probe(self, st, fr, l, path, kind, k, fld, with_succ=True):
     f2 = sc.frames[-1]
     idv = sc.id_of(k)
     f2.locals[l] = self.update(sc, f2.locals[l], path, idv if kind == "id" else some(idv))
+    for c_ in companions:
+        f2.locals[c_] = VRef(("node", k), (), False)
     sc.meta["stop_at"] = (f2.uid, f2.bb)
     sc.meta["stop_armed"] = False
     sc.meta["in_probe"] = True
@@ -175,7 +177,7 @@ def probe(self, st, fr, l, path, kind, k, fld, with_succ=True):
     return sc, sc.events[nev:], g2
 
 
-def _iteration_shape(self, st, fr, l, path, kind, k, fld, r):
+def _iteration_shape(self, st, fr, l, path, kind, k, fld, r, companions=()):
     """Check that a probed iteration only advanced the cursor along fld; return its writes {field: value} on k (or None)."""
     sc, events, g2 = r
     f2 = sc.frames[-1]
@@ -195,6 +197,12 @@ def _iteration_shape(self, st, fr, l, path, kind, k, fld, r):
         return None
     for k2 in set(fr.locals) | set(f2.locals):
         a, b = fr.locals.get(k2), f2.locals.get(k2)
+        if k2 in companions:
+            # a reference to the cursor's node that moves along with the cursor
+            succ2 = sc.h0_link(k, fld)
+            if isinstance(b, VRef) and not b.path and b.root == ("node", succ2):
+                continue
+            return None
         if k2 == l:
             # everything but the cursor leaf must be unchanged
             try:
@@ -222,10 +230,11 @@ def _iteration_shape(self, st, fr, l, path, kind, k, fld, r):
 
 
 def summarise(self, st, fr, key, l, path, kind, g, fld):
-    r = probe(self, st, fr, l, path, kind, g, fld)
+    companions = tuple(k2 for k2, v in fr.locals.items() if k2 != l and isinstance(v, VRef) and not v.path and v.root == ("node", g)) if kind == "id" else ()
+    r = probe(self, st, fr, l, path, kind, g, fld, companions=companions)
     if r is None:
         return False
-    writes = _iteration_shape(self, st, fr, l, path, kind, g, fld, r)
+    writes = _iteration_shape(self, st, fr, l, path, kind, g, fld, r, companions)
     if writes is None:
         return False
     first_locals = st.meta.get("lh_first", {}).get(key, {})
@@ -274,8 +283,8 @@ def summarise(self, st, fr, key, l, path, kind, g, fld):
                 pk = st.h0_link(k, "parent")
             if pk != x:
                 continue
-            rk = probe(self, st, fr, l, path, kind, k, fld)
-            wk = _iteration_shape(self, st, fr, l, path, kind, k, fld, rk) if rk is not None else None
+            rk = probe(self, st, fr, l, path, kind, k, fld, companions=companions)
+            wk = _iteration_shape(self, st, fr, l, path, kind, k, fld, rk, companions) if rk is not None else None
             if wk is None:
                 # the named child may end the chain (exit inside the iteration): compare its effect without requiring a return to the head
                 wk = _effect_only(self, st, fr, l, path, kind, k)
@@ -319,8 +328,8 @@ def summarise(self, st, fr, key, l, path, kind, g, fld):
         for k in named:
             if fld == "parent" and st.anc_query(k, g) is False:
                 continue
-            rk = probe(self, st, fr, l, path, kind, k, fld)
-            wk = _iteration_shape(self, st, fr, l, path, kind, k, fld, rk) if rk is not None else None
+            rk = probe(self, st, fr, l, path, kind, k, fld, companions=companions)
+            wk = _iteration_shape(self, st, fr, l, path, kind, k, fld, rk, companions) if rk is not None else None
             if wk is None or wk:
                 interesting.append(k)
         named = interesting
@@ -349,6 +358,10 @@ def summarise(self, st, fr, key, l, path, kind, g, fld):
                 common(s)
                 compatible(s, k)
                 _set_leaf(self, s, luid, l, path, s.id_of(k) if kind == "id" else some(s.id_of(k)))
+                for c_ in companions:
+                    for f_ in s.frames:
+                        if f_.uid == luid:
+                            f_.locals[c_] = VRef(("node", k), (), False)
                 s.meta["reach"] = tuple(s.meta.get("reach", ())) + ((fld, start, k), (fld, g, k))
             opts.append(("walk %s from %s on to %s" % (fld, g, k), jump))
     if kind == "id":
@@ -364,6 +377,10 @@ def summarise(self, st, fr, key, l, path, kind, g, fld):
             if fld in ("first_child", "last_child"):
                 s.anc[(g, e)] = True
             _set_leaf(self, s, luid, l, path, s.id_of(e))
+            for c_ in companions:
+                for f_ in s.frames:
+                    if f_.uid == luid:
+                        f_.locals[c_] = VRef(("node", e), (), False)
             s.meta["reach"] = tuple(s.meta.get("reach", ())) + ((fld, start, e), (fld, g, e))
         opts.append(("walk %s from %s to a fresh chain end" % (fld, g), fresh_end))
     raise Fork(opts, "chain walk along %s in %s" % (fld, fnkey))
